@@ -33,6 +33,8 @@ import Proofs.TypingPipeline
 import Proofs.TypingStrict
 import Martian.TypingRun
 import Proofs.TypingRun
+import Martian.TypingProgram
+import Proofs.TypingProgram
 
 namespace Props.C07
 open Martian.Json Martian.Types Martian.Typing
@@ -1282,5 +1284,112 @@ example :
     retValueT (Γ0 .single) ρ0 ret outs = some [(kb, .arr [.str kx]), (ka, .obj [(ka, .num (.int 1))])] ∧
     valid (.struct kx outs) (.obj [(kb, .arr [.str kx]), (ka, .obj [(ka, .num (.int 1))])]) = true :=
   ⟨by decide, by decide, rfl, by decide⟩
+
+/-! ### 12. THE HEADLINE AS ONE THEOREM: whole programs -/
+
+/-- PARTIAL (hypotheses inside `progOk`: `noHole` at every reference – the C17
+holes F9 / F10 –, and no MAP call of a callable with file-typed outputs – fork
+keys would have to be legal file names, audit M3; both are decidable and are
+evaluated on every accepted generated program, driver op `C07.prog`).
+
+For every program `P` (pipeline definitions) with top-level call `top` that the
+compiler's rules accept – `validTop`, `validPipelineU` of every definition,
+every call of every body accepted in the environment of the calls before it
+(`progOk`) – and whose call graph below `top` is at most `n` deep (`fits`):
+
+IF every invocation of every STAGE the program calls returns outputs that
+conform to the stage's declared output types (`OracleOk` – the only assumption
+about the outside world),
+
+THEN the CHECKED run of the whole program succeeds: `run` resolves every binding
+of every call of every pipeline, in every fork of every mapped call, at every
+nesting level, with the faithful run-time model (`deliveredT` = `Path` with the
+destination peeled, leaf-wise `FilterJson`; literals element-wise), FAILS if a
+resolution fails or if a delivered value does not validate against the declared
+type of the parameter it is bound to (`argLists`), resolves every pipeline's
+return bindings at the declared output types – and the top-level outputs are a
+valid value of the declared output struct (`t`, `t[]` or `map<t>` for a mapped
+top-level call).
+
+Proof: induction over the calls of a body in dependency order
+(`stepCall_sound`, `runCalls_sound`: the store invariant `StoreOk` is
+established call by call, not assumed) inside an induction over the nesting
+depth (`run_sound`). -/
+theorem program_sound_partial (P : Prog) (O : Oracle) (top : CallStm) (n : Nat)
+    (hO : OracleOk P top O) (hP : progOk P top = true) (hn : fits P n top.callee = true) :
+    ∃ sh out, checkStm emptyEnv top = some sh ∧
+      runProgram P O n top =
+        some ({ self := [], calls := [(top.id, top.sig sh)] }, { self := [], calls := [(top.id, out)] }) ∧
+      valid (top.sig sh).whole out = true :=
+  runProgram_sound P O top n hO hP hn
+
+/-- what "the checked run succeeds" means for one call: every value in the
+argument lists has been validated against its parameter's declared type
+(documentation of `argLists`) -/
+theorem argLists_checked (Γ : Env) (ρ : Store) (bs : List (Bytes × Bind)) :
+    ∀ (params : List (Bytes × Ty)) (args : List (Bytes × Bool × List J)),
+      argLists Γ ρ bs params = some args →
+      ∀ a ∈ args, ∃ t, (a.1, t) ∈ params ∧ ∀ v ∈ a.2.2, valid t v = true
+  | [], args, h => by simp [argLists] at h; subst h; simp
+  | (x, t) :: r, args, h => by
+    simp only [argLists] at h
+    cases hb : bs.lookup x with
+    | none => simp [hb] at h
+    | some b =>
+      simp only [hb] at h
+      cases hd : deliveredT Γ ρ t b with
+      | none => simp [hd] at h
+      | some vs =>
+        simp only [hd] at h
+        by_cases hc : (vs.all fun v => valid t v) = true
+        · simp only [hc, if_true] at h
+          cases hr : argLists Γ ρ bs r with
+          | none => simp [hr] at h
+          | some as =>
+            simp only [hr, Option.some.injEq] at h
+            subst h
+            intro a ha
+            rcases List.mem_cons.mp ha with rfl | ha
+            · exact ⟨t, List.mem_cons_self, fun v hv => List.all_eq_true.mp hc v hv⟩
+            · obtain ⟨t', hm, hv⟩ := argLists_checked Γ ρ bs r as hr a ha
+              exact ⟨t', List.mem_cons_of_mem _ hm, hv⟩
+        · simp [hc] at h
+
+/-! a three-level program: `TOP` calls `L1`, which MAP-calls `L2` over an array
+(one element is the pipeline's input), which calls the stage `P` with a WILDCARD
+binding (`* = self`), returns a NARROWING (`x = P.o`: struct W → struct A) and a
+PROJECTION THROUGH A TYPED MAP (`b = P.m.a`: `map<A>` → `map<int>`); `L1` hands
+`L2.b` on as `map<int>[]`. -/
+private abbrev nL2 : Bytes := [0x4C, 0x32]
+private abbrev nL1 : Bytes := [0x4C, 0x31]
+private abbrev nTop : Bytes := [0x54]
+private abbrev stP : Callee :=
+  { name := cP, isStage := true, params := [(ka, .base .int)], outs := .cons ko tW (.cons km (.tmap tA) .nil) }
+private abbrev pL2 : Pipeline :=
+  { name := nL2, ins := [(ka, .base .int)], outs := .cons kx tA (.cons kb (.tmap (.base .int)) .nil),
+    calls := [{ id := cP, callee := stP, binds := [], wild := some .self, mods := noMods }],
+    ret := [(kx, .plain (.call cP [ko])), (kb, .plain (.call cP [km, ka]))], retWild := none, retain := [] }
+private abbrev pL1 : Pipeline :=
+  { name := nL1, ins := [(ka, .base .int)], outs := .cons kb (.arr (.tmap (.base .int))) .nil,
+    calls := [{ id := nL2, callee := pL2.callee, binds := [(ka, .split (.arr (.cons (.self ka []) (.cons (.int 2) .nil))))],
+                wild := none, mods := noMods }],
+    ret := [(kb, .plain (.call nL2 [kb]))], retWild := none, retain := [] }
+private abbrev pTop : Pipeline :=
+  { name := nTop, ins := [], outs := .cons kb (.arr (.tmap (.base .int))) .nil,
+    calls := [{ id := nL1, callee := pL1.callee, binds := [(ka, .plain (.int 1))], wild := none, mods := noMods }],
+    ret := [(kb, .plain (.call nL1 [kb]))], retWild := none, retain := [] }
+private abbrev prog3 : Prog := { pipes := [pL2, pL1, pTop] }
+private abbrev top3 : CallStm := { id := nTop, callee := pTop.callee, binds := [], wild := none, mods := noMods }
+/-- the outside world: the stage returns `o = {a: 1, b: ["x"]}`, `m = {"x": {a: 5}}` -/
+private abbrev oracle3 : Oracle := fun _ _ => .obj [(ko, vW), (km, .obj [(kx, .obj [(ka, .num (.int 5))])])]
+
+/-- non-vacuity of `program_sound_partial`: all hypotheses hold for the
+three-level program, and the checked run delivers `b = [{"x": 5}, {"x": 5}]` -/
+example :
+    progOk prog3 top3 = true ∧ fits prog3 4 top3.callee = true ∧ fits prog3 3 top3.callee = false ∧
+    valid (.struct cP stP.outs) (oracle3 cP []) = true ∧
+    (runProgram prog3 oracle3 4 top3).map (fun s => s.2.calls) =
+      some [(nTop, .obj [(kb, .arr [.obj [(kx, .num (.int 5))], .obj [(kx, .num (.int 5))]])])] :=
+  ⟨by decide, by decide, by decide, by decide, rfl⟩
 
 end Props.C07
